@@ -95,9 +95,39 @@ fn symgraph_of_code(n: usize, code: u64, loops: bool) -> Graph {
 
 fn rand_digraph(rng: &mut Rng, n: usize) -> (Graph, &'static str) {
     let mut g: Graph = vec![Vec::new(); n];
-    let style = rng.below(8);
+    let style = rng.below(10);
     let name;
     match style {
+        8 | 9 => { // non-trivial SCCs in a chain, consecutive ones joined by SEVERAL bridge arcs
+                   // with different sources and targets (exercises the bridge selection of
+                   // the SCC graph), plus pendant nodes
+            name = "bridges";
+            let mut perm: Vec<usize> = (0..n).collect(); rng.shuffle(&mut perm);
+            let mut blocks: Vec<(usize, usize)> = Vec::new();
+            let mut s = 0;
+            while s < n {
+                let len = if n - s <= 2 || rng.chance(1, 6) { 1 } else { rng.range(3, 5.min(n - s)) };
+                blocks.push((s, s + len)); s += len;
+            }
+            for &(a, b) in &blocks {
+                if b - a >= 2 {
+                    for i in a..b { let j = if i + 1 == b { a } else { i + 1 }; g[perm[i]].push(perm[j]); }
+                    for _ in 0..rng.below(3) { let i = rng.range(a, b - 1); let j = rng.range(a, b - 1); if i != j { g[perm[i]].push(perm[j]); } }
+                }
+            }
+            for w in 0..blocks.len().saturating_sub(1) {
+                let (p, q) = (blocks[w], blocks[w + 1]);
+                for _ in 0..rng.range(1, 4) {
+                    let x = rng.range(p.0, p.1 - 1); let y = rng.range(q.0, q.1 - 1);
+                    g[perm[x]].push(perm[y]);
+                }
+                if w + 2 < blocks.len() && rng.chance(1, 3) {
+                    let r = blocks[w + 2];
+                    let x = rng.range(p.0, p.1 - 1); let y = rng.range(r.0, r.1 - 1);
+                    g[perm[x]].push(perm[y]);
+                }
+            }
+        }
         0 => { // sparse random
             name = "sparse";
             let m = rng.range(0, 2 * n);
